@@ -316,9 +316,42 @@ package updown
 //@ func List prefix
 //@   modifies everything
 //@   after if#2: assert [c18.oneref] len(temp) == 1
-//@ func TopRanking prefix
+//@ # the whole orchestration of `updown topranking` in spawns mode (see closest.Closest for the model and for what the two
+//@ # `assume` clauses stand on: findUpDownCatchment[PushDistance]'s post-condition sent(cOut)[0].qidx == q.idx with exactly
+//@ # one send, the query readers' idx post-conditions and the worker wiring proved in splitInput). Proved: the validated
+//@ # options reach the fan-out stage unchanged; for every arrival order of the results, query k's catchment sits in slot k
+//@ # of the table handed to the writer the --table flag selects; an error received from any stage or returned by the
+//@ # writer is returned to the caller.
+//@ spec resultOfTR(k int) int uninterpreted
+//@ func TopRanking spawns
 //@   modifies everything
 //@   after if#1: assert [c18.args] err == nil
+//@   after if#4: assert [c18.oneref] len(temp) == 1
+//@   after assign:cSplitDone#1: assume [env.results] forall(k, 0, nQ, 0 <= resultOfTR(k) && resultOfTR(k) < nQ && envat(cResults, resultOfTR(k)).qidx == k) && forall(j, 0, nQ, 0 <= envat(cResults, j).qidx && envat(cResults, j).qidx < nQ && resultOfTR(envat(cResults, j).qidx) == j)
+//@   after assign:cSplitDone#1: assume [env.errors] forallint(k, envat(cErr, k) != nil)
+//@   before call:splitInput#1: assert [c08.options] sameslice(arg(0), queries) && sameslice(arg(1), ignoreArray) && arg(2) == sizeArray && arg(3) == nofill && arg(4) == distArray && (arg(5) == threshpair || (isnan(arg(5)) && isnan(threshpair))) && arg(6) == threshtarg && arg(7) == distpush && arg(8) == cudL && arg(9) == cResults
+//@   before call:readCSVToUDLChan#1: assert [c09.target.csv] t_in_type == "csv" && arg(0) == target && arg(1) == cudL
+//@   before call:readFastaToUDLChan#1: assert [c09.target.fasta] t_in_type == "fasta" && arg(0) == target && sameslice(arg(1), refSeq) && arg(2) == cudL
+//@   loop 1:
+//@     invariant len(recvd(cErr)) == 0 && len(recvd(cResults)) == 0 && nQ == len(queries) && len(QResultsArray) == nQ && freshslice(QResultsArray)
+//@   loop 2:
+//@     invariant len(recvd(cErr)) == 0 && len(recvd(cResults)) == 0 && nQ == len(queries) && len(QResultsArray) == nQ && freshslice(QResultsArray)
+//@   loop 3:
+//@     invariant 0 <= i && i <= nQ && len(recvd(cErr)) == 0 && len(recvd(cResults)) == i && nQ == len(queries) && len(QResultsArray) == nQ && freshslice(QResultsArray)
+//@     invariant [c12.slots] forall(j, 0, i, QResultsArray[envat(cResults, j).qidx] == envat(cResults, j))
+//@   before call:writeUpdownTable#1: assert [c12.slots] table && arg(0) == out && forall(k, 0, nQ, QResultsArray[k] == envat(cResults, resultOfTR(k)) && QResultsArray[k].qidx == k)
+//@   before call:writeUpDownCatchment#1: assert [c12.slots] !table && arg(0) == out && forall(k, 0, nQ, QResultsArray[k] == envat(cResults, resultOfTR(k)) && QResultsArray[k].qidx == k)
+//@   ghost gErrSeen bool = false
+//@   ghost gWriteFailed bool = false
+//@   before return#6: do gErrSeen = true
+//@   before return#7: do gErrSeen = true
+//@   before return#6: assert [c18.error.first] len(recvd(cErr)) == 1 && err == recvd(cErr)[0]
+//@   before return#7: assert [c18.error.first] len(recvd(cErr)) == 1 && err == recvd(cErr)[0]
+//@   after call:writeUpdownTable#1: do gWriteFailed = err != nil
+//@   after call:writeUpDownCatchment#1: do gWriteFailed = err != nil
+//@   before return#9: assert [c18.nil.means.clean] len(recvd(cErr)) == 0 && len(recvd(cResults)) == nQ
+//@   ensures [c18.error.returned] implies(gErrSeen, result != nil)
+//@   ensures [c19.writer.error.returned] implies(gWriteFailed, result != nil)
 
 //@ # C08 --dist-push: the k-nearest-distances bins.
 //@ func getMaxKey
